@@ -2799,6 +2799,38 @@ class Normalizer:
                 self.stats['params_renamed_back'] = self.stats.get('params_renamed_back', 0) + 1
                 self.log.append(f'{rel}: parameters of {q} are read under the names of the design tree ({", ".join(f"{k}->{v}" for k, v in ren.items())})')
 
+    # -------------------------------------------------------- call argument form
+    def _positional_calls(self):
+        """`Wrapper(file=f, rate_limiter=self)` is `Wrapper(f, self)`: a call of a package class / function by simple name
+        that passes ALL its arguments by keyword, each naming a positional parameter and together filling the leading
+        positions, is read in positional form (the form the design tree uses for such calls)."""
+        sigs = {}
+        for rel, tree in self.trees.items():
+            for st in tree.body:
+                if isinstance(st, FuncNode):
+                    a = st.args
+                    sigs.setdefault(st.name, []).append([x.arg for x in a.posonlyargs + a.args] if not a.posonlyargs else None)
+                elif isinstance(st, ast.ClassDef):
+                    init = next((m for m in st.body if isinstance(m, FuncNode) and m.name == '__init__'), None)
+                    if init is not None:
+                        a = init.args
+                        sigs.setdefault(st.name, []).append([x.arg for x in (a.posonlyargs + a.args)[1:]] if not a.posonlyargs else None)
+        for tree in self.trees.values():
+            for c in ast.walk(tree):
+                if not (isinstance(c, ast.Call) and isinstance(c.func, ast.Name) and not c.args and c.keywords):
+                    continue
+                sg = sigs.get(c.func.id)
+                if not sg or len(sg) != 1 or sg[0] is None:
+                    continue
+                params = sg[0]
+                names = [k.arg for k in c.keywords]
+                if None in names or len(set(names)) != len(names) or set(names) != set(params[: len(names)]):
+                    continue
+                by = {k.arg: k.value for k in c.keywords}
+                c.args = [by[p_] for p_ in params[: len(names)]]
+                c.keywords = []
+                self.stats['idioms'] += 1
+
     # ------------------------------------------------- moved definitions / new bases
     def _rehome_moved_definitions(self):
         """A top-level function / class of the inventory that is gone from its module while a definition of the same name
@@ -3088,6 +3120,7 @@ class Normalizer:
             ast.fix_missing_locations(tree)
         self._rehome_moved_definitions()
         self._flatten_new_bases()
+        self._positional_calls()
         self._reoutline()
         self._class_index()
         self._rehome_methods()
